@@ -10,16 +10,16 @@ import (
 type Explorer struct {
 	Opt      Options
 	Body     func()
-	Bound    int           // maximum total deviation cost
-	Prune    bool          // cut executions at states already covered with >= remaining budget
-	Deadline time.Time     // wall-clock cap (zero = none); hitting it makes the run non-exhaustive
-	MaxExec  int64         // execution cap (0 = none)
+	Bound    int                                 // maximum total deviation cost
+	Prune    bool                                // cut executions at states already covered with >= remaining budget
+	Deadline time.Time                           // wall-clock cap (zero = none); hitting it makes the run non-exhaustive
+	MaxExec  int64                               // execution cap (0 = none)
 	OnResult func(r *Result, choices []int) bool // oracle; return false to stop the search
 
 	Stats    Stats
 	Leftover [][]int // unexplored prefixes when MaxExec stopped the search
-	visited map[[2]uint64]int8
-	stop    bool
+	visited  map[[2]uint64]int8
+	stop     bool
 }
 
 // Stats is what the search covered.
